@@ -149,6 +149,22 @@ CLAIMED = {
         "no-ops must be detected.",
         "DESIGN.md §4 C11, §9",
     ),
+    "C12": (
+        "TLC-enumerated index expressions of ArrayProgram.tla (basic, integer lists, boolean masks, dask integer arrays, vindex, "
+        "Ellipsis) with NdArray.tla denotations replayed into dask_array; `.blocks` cases enumerated by Gen_Blocks.tla with the "
+        "expected concatenation",
+        "Exhaustive within bounds: every basic index of the 1-D sources (n <= 5: start, stop in None + [-n-2, n+2], step in None, "
+        "+-1, +-2, +-3 in the thorough tier; every integer in [-n-1, n]; None inserted), lean index tuples in 2-D / 3-D, integer "
+        "lists with negatives / repeats / out-of-bounds, all 2^n boolean masks along an axis up to n = 4 (NumPy and dask masks), "
+        "dask integer arrays, pointwise .vindex, Ellipsis, and a second index on the result of a first operation (incl. results "
+        "with unknown chunk sizes); `.blocks[...]` with integers, slices and lists over every chunk grid (non-empty selections). "
+        "A valid index must compute the TLC-computed denotation under every chunk grid (or be declined with NotImplementedError), "
+        "an index NumPy rejects must raise.",
+        "Known findings F27 (out-of-bounds dask integer array index does not raise), F28 (vindex with a kept axis as root), F29 "
+        "(slice after a dask-integer-array index raises in simplify) are reported as KNOWN-FINDING. False alarm corrected: empty block "
+        "selections in `.blocks` (no selected block to concatenate) were removed from the domain.",
+        "DESIGN.md §4 C12, §9",
+    ),
     "C13": (
         "TLC-enumerated helper inputs; recorded outputs validated by TLC against Planner.tla (Trace_Plan)",
         "Exhaustive within bounds: TLC enumerates every (slice|int, axis length, chunking, pair of indices) of the "
@@ -174,6 +190,29 @@ CLAIMED = {
         "Unknown (nan) sizes along unchanged axes are not generated. False alarm corrected: a 'balanced result has no larger "
         "spread' clause demanded more than the property states and was removed.",
         "DESIGN.md §4 C14, §9",
+    ),
+    "C18": (
+        "TreeReduce.tla model-checked over every tree (any contiguous group of <= split_every partials merged per step); "
+        "TLC-enumerated reductions with NdArray.tla denotations replayed under every chunk grid",
+        "Model level (exhaustive): 10 reduction kinds x every input of length <= 5 over {0, 1, 3, NaN} x every chunking x every tree: "
+        "the partials always determine the flat reduction.  Code level: every reduction (sum, prod, min, max, any, all, mean, var, "
+        "nansum, nanmin, nanmax, nanmean, argmin, argmax with and without axis, count_nonzero, ptp, topk) x axis subsets x keepdims "
+        "x split_every in {default, 2, 3, {0:2, 1:3}} over int / bool / NaN-carrying sources (5), (7), (3,4), (2,3,2), replayed "
+        "under the chunk grids of the source (all 64 grids of the 7-element source, i.e. trees three levels deep), plus reduction ; "
+        "slice and (slice | rechunk | transpose | elemwise) ; reduction compositions.",
+        "Known finding F15 (argmax(axis=None) ties in block order) is reported as KNOWN-FINDING; F14 was repaired (fix: 4d53064). "
+        "std, moment and weighted average are not modelled.",
+        "DESIGN.md §4 C18, §9",
+    ),
+    "C19": (
+        "TLC-enumerated window / scan operations with NdArray.tla denotations replayed under every chunk grid",
+        "Exhaustive within bounds: sliding_window_view alone and under 8 reducers for every window size, cumsum / cumprod "
+        "(sequential and blelloch) and diff along every axis, over 1-D sources of 1..8 elements and two 2-D sources (int, float, "
+        "bool), each replayed under every chunk grid of its source (128 grids for 8 elements: windows spanning many blocks, blocks "
+        "smaller than the window, 8-block scans).",
+        "map_overlap / overlap boundary kinds, gradient and moving-window helpers have no denotation in NdArray.tla and are not "
+        "decided by this check (partial coverage of the property, stated in DESIGN.md §9).",
+        "DESIGN.md §4 C19, §9",
     ),
     "C20": (
         "TLC-enumerated ArrayProgram behaviours with MapBlocks actions replayed; every invocation of the block function recorded and "
@@ -269,6 +308,19 @@ CLAIMED = {
         "from two witness calls.",
         "DESIGN.md §4 C25, §9",
     ),
+    "C26": (
+        "XarrayOptIn.tla model-checked (OptIn; the import-time registration mutant violates it); enumerated interpreter histories run "
+        "in fresh interpreters and validated by TLC (XarrayOptIn.OptInVerdict)",
+        "For every importable dask_array sub-module m (154; a rotating third in the quick tier): [import xarray ; import m] and "
+        "[import m ; import xarray]; seeded longer histories of 2-4 sub-modules around xarray; histories of ordinary use without "
+        "register() (array compute / persist; xarray Datasets holding dask_array arrays through dask.compute / persist / "
+        "optimize) after importing the integration modules; and four histories with register() (incl. twice) followed by an xarray "
+        "computation on dask_array-backed data compared with NumPy-backed data.  After every step the interpreter records the type "
+        "of xarray's 'dask' chunk manager and dask_array.xarray.isactive(); TLC rejects 'ours' / active before register() and "
+        "anything else after it.",
+        "One interpreter per history (0.3-0.9 s each).",
+        "DESIGN.md §4 C26, §9",
+    ),
     "C27": (
         "TLC-enumerated layout pairs validated by TLC (Trace_Plan) + node estimates over TLC-enumerated ArrayProgram behaviours",
         "Exhaustive within bounds: (a) every pair of chunkings of every axis length <= 7 (quick) / 9 (thorough): moved_fraction "
@@ -337,7 +389,7 @@ def build():
     for pid in ALL:
         if pid in CLAIMED:
             continue
-        reason = NOT_APPLICABLE.get(pid, "no registered check yet: designed in DESIGN.md §4 but not built and triaged within the sessions so far (DESIGN.md §9); not claimed")
+        reason = NOT_APPLICABLE.get(pid, "no registered check")
         na.append({"property_id": pid, "reason": reason})
     return {
         "version": 1,
